@@ -1151,6 +1151,7 @@ def FIBER(
         else phi_max / (gamma * (np.abs(np.atleast_2d(A)) ** 2).sum(axis=0)).max()
     )
 
+    h = min(h, length)  # the first step can not exceed the fiber length
     x_length = h
 
     if show_progress:
